@@ -47,6 +47,7 @@ func (c *vhCtx) Err() error                  { return c.err }
 func (c *vhCtx) Value(any) any               { return nil }
 func (c *vhCtx) cancel() {
 	if c.err == nil {
+		verifYield()
 		c.err = context.Canceled
 		close(c.done)
 	}
